@@ -257,6 +257,19 @@ func runCase(r *ev.Report, sc scenario, f fault) {
 	c := caseDesc{sc.Name, f}
 	var gotDoc bool
 	var err error
+	// a fault that makes a background goroutine of the fetch panic ends the real program;
+	// here the constructor waiting for that goroutine would wait for ever, so the verdict
+	// is given at once
+	verifrt.OnPassPanic = func(msg string) {
+		hopCls := "first-hop"
+		if f.Hop > 0 {
+			hopCls = "later-hop"
+		}
+		r.Violation(fmt.Sprintf("fault:panic:%s:%s:%s", f.Kind, stage(sc, f), hopCls), map[string]any{"case": c, "msg": msg})
+		r.Note("stopped at the first panic in a background goroutine (the code waiting for it is stuck)")
+		r.Exhaustive = false
+		r.Finish()
+	}
 	pan := func() (p string) {
 		defer func() {
 			if x := recover(); x != nil {
